@@ -48,6 +48,9 @@ for b in idx.get('benign', []):
         v2 = [x for x in v if (p, x['rule'], x['key']) not in kset]
         if v2:
             hits[p] = v2
+    if hits and b.get('undecided_ok') and all(x.get('verdict') == 'undecided' for v in hits.values() for x in v):
+        print('%-45s UNDECIDED (accepted for this variant): %s' % (b['name'], ', '.join(sorted(hits))))
+        continue
     print('%-45s %s' % (b['name'], 'SILENT' if not hits else 'FALSE ALARM: ' + ', '.join('%s[%s]' % (p, ','.join(sorted(set(x['rule'] + ('?' if x.get('verdict') == 'undecided' else '') for x in v)))) for p, v in sorted(hits.items()))))
     if hits:
         bad += 1
